@@ -467,3 +467,69 @@ func VerifHarness_C14_rev_clienthello_extension_strict() {
 	verifReach("checked")
 	verifAssert("C14.extstrict.trailingByteInExtensionRejected", !ok)
 }
+
+// C14 strictness without the framing precondition: the decoders receive a SLICE; its length is the outer
+// length. The three header bytes that repeat that length are arbitrary here (not tied to len(data)). A decoder
+// that accepts must have consumed the whole slice: re-encoding the decoded fields gives a message of the same
+// length whose bytes equal the input everywhere except, possibly, in those three header bytes. (A decoder
+// that validates the inner lengths against the header field instead of the slice accepts trailing bytes.)
+//
+//verif:harness props=C14 paths=200000 tpaths=2000000 split reach=accepted,rejected
+func VerifHarness_C14_rev_slice_is_outer() {
+	typ := verifSplitInt("type", 2, 8)
+	n := verifSplitInt("len", 4, verifBound(14, 20))
+	data := verifNondetBytes("msg", n)
+	var m handshakeMessage
+	switch typ {
+	case 2:
+		data[0] = typeCertificate
+		m = new(certificateMsg)
+	case 3:
+		data[0] = typeServerKeyExchange
+		m = new(serverKeyExchangeMsg)
+	case 4:
+		data[0] = typeCertificateRequest
+		m = new(certificateRequestMsg)
+	case 5:
+		data[0] = typeServerHelloDone
+		m = new(serverHelloDoneMsg)
+	case 6:
+		data[0] = typeClientKeyExchange
+		m = new(clientKeyExchangeMsg)
+	case 7:
+		data[0] = typeCertificateVerify
+		m = new(certificateVerifyMsg)
+	case 8:
+		data[0] = typeFinished
+		m = new(finishedMsg)
+	}
+	in := append([]byte(nil), data...)
+	if !m.unmarshal(data) {
+		verifReach("rejected")
+		return
+	}
+	verifReach("accepted")
+	switch x := m.(type) {
+	case *certificateMsg:
+		x.raw = nil
+	case *serverKeyExchangeMsg:
+		x.raw = nil
+	case *certificateRequestMsg:
+		x.raw = nil
+	case *clientKeyExchangeMsg:
+		x.raw = nil
+	case *certificateVerifyMsg:
+		x.raw = nil
+	case *finishedMsg:
+		x.raw = nil
+	}
+	out, err := m.marshal()
+	verifAssert("C14.sliceouter.reencodes", err == nil)
+	verifAssert("C14.sliceouter.wholeSliceConsumed", len(out) == len(in))
+	for i := 0; i < len(out) && i < len(in); i++ {
+		if i >= 1 && i <= 3 {
+			continue
+		}
+		verifAssert("C14.sliceouter.sameBytes", out[i] == in[i])
+	}
+}
